@@ -22,6 +22,10 @@ NetK4 == [n |-> 4, np |-> 4,
 \* two switches, one cable and one extra one-way wire
 NetOne == [n |-> 2, np |-> 3, wires |-> Both({<<1, 1, 2, 1>>}) \cup {<<1, 2, 2, 2>>}]
 MCNetsOne  == {NetOne}
+\* two switches, one cable, one host port each (the spanning_tree options: the
+\* NO_FLOOD bits of young switches are free, which multiplies the states)
+NetMin == [n |-> 2, np |-> 2, wires |-> Both({<<1, 1, 2, 1>>})]
+MCNetsMin == {NetMin}
 \* chain of three switches
 NetChain == [n |-> 3, np |-> 3, wires |-> Both({<<1, 1, 2, 1>>, <<2, 2, 3, 1>>})]
 MCNetsChain == {NetChain}
@@ -34,6 +38,68 @@ MCNetsGen  == {NetPar, NetTri, NetLoop}
 MCDurSmall == {6, 16}
 MCDurLong  == {16}
 MCDurGen   == {1, 3, 6, 10, 16}
+MCDurRel   == {}                   \* = {Detect, Expire} of the configuration
+MCDurRelQ  == {0}                  \* = {Detect or Hold + Slack, Expire} of the configuration
+MCDurSim   == {1, 2, 3, 4, 6, 8, 10, 16}
+
+\* Configurations (options of openflow.discovery / openflow.spanning_tree)
+Opt(to, nofl, hold) == [to |-> to, flow |-> TRUE, drop |-> TRUE, eat |-> FALSE, nofl |-> nofl, hold |-> hold]
+CfgDefault == Opt(10, FALSE, FALSE)
+MCCfgDefault == {CfgDefault}
+\* link timeouts: short (odd: the probe cycle is not whole), long
+MCCfgShort == {Opt(3, FALSE, FALSE)}
+MCCfgLong  == {Opt(30, FALSE, FALSE)}
+\* the three spanning_tree modes (with a short timeout: small ages)
+MCCfgHold  == {Opt(4, FALSE, TRUE)}
+MCCfgNofl  == {Opt(4, TRUE, FALSE)}
+MCCfgBoth  == {Opt(4, TRUE, TRUE)}
+\* the options no clause mentions, all eight combinations (default timing)
+MCCfgFlags == {[to |-> 10, flow |-> f, drop |-> d, eat |-> e, nofl |-> FALSE, hold |-> FALSE] :
+                 f \in BOOLEAN, d \in BOOLEAN, e \in BOOLEAN}
+\* short odd timeout, the don't-care options all flipped
+MCCfgShortFlipped == {[to |-> 3, flow |-> FALSE, drop |-> FALSE, eat |-> TRUE, nofl |-> FALSE, hold |-> FALSE]}
+\* what TLC draws environment histories from (EX_sim.cfg)
+MCCfgSim == {CfgDefault, Opt(2, FALSE, FALSE), Opt(3, FALSE, FALSE), Opt(4, FALSE, FALSE), Opt(7, FALSE, FALSE),
+             Opt(4, FALSE, TRUE), Opt(4, TRUE, FALSE), Opt(4, TRUE, TRUE), Opt(10, TRUE, TRUE), Opt(3, TRUE, TRUE),
+             [to |-> 4, flow |-> FALSE, drop |-> FALSE, eat |-> TRUE, nofl |-> FALSE, hold |-> FALSE],
+             [to |-> 10, flow |-> FALSE, drop |-> TRUE, eat |-> TRUE, nofl |-> FALSE, hold |-> TRUE]}
+
+(* Several configurations in ONE run (quick tier): Next split per class of   *)
+(* configuration, so that TLC's per-action coverage shows that every action *)
+(* was taken under every class (the vacuity guard of the check).            *)
+MCCfgQuick == MCCfgShortFlipped \cup MCCfgHold \cup MCCfgNofl \cup MCCfgBoth
+IsPlain == ~cfg.nofl /\ ~cfg.hold
+PlainUp == IsPlain /\ UpAny
+PlainDown == IsPlain /\ DownAny
+PlainAdvance == IsPlain /\ AdvanceAny
+PlainCut == IsPlain /\ CutNext
+PlainRestore == IsPlain /\ RestoreNext
+PlainFlood == IsPlain /\ FloodNext
+IsHold == ~cfg.nofl /\ cfg.hold
+HoldUp == IsHold /\ UpAny
+HoldDown == IsHold /\ DownAny
+HoldAdvance == IsHold /\ AdvanceAny
+HoldCut == IsHold /\ CutNext
+HoldRestore == IsHold /\ RestoreNext
+HoldFlood == IsHold /\ FloodNext
+IsNofl == cfg.nofl /\ ~cfg.hold
+NoflUp == IsNofl /\ UpAny
+NoflDown == IsNofl /\ DownAny
+NoflAdvance == IsNofl /\ AdvanceAny
+NoflCut == IsNofl /\ CutNext
+NoflRestore == IsNofl /\ RestoreNext
+NoflFlood == IsNofl /\ FloodNext
+IsBoth == cfg.nofl /\ cfg.hold
+BothUp == IsBoth /\ UpAny
+BothDown == IsBoth /\ DownAny
+BothAdvance == IsBoth /\ AdvanceAny
+BothCut == IsBoth /\ CutNext
+BothRestore == IsBoth /\ RestoreNext
+BothFlood == IsBoth /\ FloodNext
+NextCfgs == \/ PlainUp \/ PlainDown \/ PlainAdvance \/ PlainCut \/ PlainRestore \/ PlainFlood
+            \/ HoldUp \/ HoldDown \/ HoldAdvance \/ HoldCut \/ HoldRestore \/ HoldFlood
+            \/ NoflUp \/ NoflDown \/ NoflAdvance \/ NoflCut \/ NoflRestore \/ NoflFlood
+            \/ BothUp \/ BothDown \/ BothAdvance \/ BothCut \/ BothRestore \/ BothFlood
 
 (* Static part: every converged state (any wiring, any permitted NO_FLOOD   *)
 (* set) as an initial state; only Flood steps.  Decides "forest => a        *)
@@ -41,12 +107,14 @@ MCDurGen   == {1, 3, 6, 10, 16}
 (* of the net and ALL forests the property permits.                         *)
 InitConverged ==
   /\ net \in Nets
+  /\ cfg \in Configs
   /\ phys \in SUBSET net.wires
   /\ conn = Switches
   /\ adj = phys
   /\ nf \in {X \in SUBSET Ends(phys) : FloodReason(phys, Switches, X, {}) = "ok"}
   /\ age = [l \in net.wires |-> Cap]
   /\ quiet = Cap
+  /\ since = [s \in Switches |-> HoldCap]
   /\ last = NoObs
   /\ hist = <<>>
 NextFlood == FloodNext
